@@ -3,6 +3,7 @@
 
 mod exec;
 mod pool;
+mod sharedfd;
 
 use simcore::worker::Scenario;
 
@@ -15,5 +16,6 @@ fn main() {
     let mut scenarios: Vec<Scenario> = Vec::new();
     scenarios.extend(exec::scenarios());
     scenarios.extend(pool::scenarios());
+    scenarios.extend(sharedfd::scenarios());
     simcore::worker::main(&scenarios)
 }
